@@ -534,7 +534,7 @@ def interleave_rules(ctx, rep):
         for t in walk(strip(i["term"])):
             if util.is_call(t) and t[1].endswith("::index") and len(t[2]) == 2 and strip(t[2][1])[0] == "agg" and strip(t[2][1])[2] in ("std::ops::RangeTo", "std::ops::Range"):
                 rng = strip(t[2][1])
-                la = se2.term_info.get(t[3][1], {}).get("locargs", (("?",),))[0]
+                la = (se2.term_info.get(t[3][1], {}).get("locargs") or (("?",),))[0]
                 X = la[1] if la[0] == "ref" else None
                 lo_ok = rng[2] == "std::ops::RangeTo" or (loopsem.const_usize(rng[4][0]) == 0)
                 hf = num_fn(rng[4][-1])
